@@ -5,6 +5,27 @@ A = "sync::arc::Arc::<T>::"
 RTA = "rt::arc::Arc::"
 
 
+def arc_drop_decrements(ctx, rule="A1r"):
+    """Dropping a loom Arc handle decrements the modelled count on every path of a live execution (also while panicking:
+    a skipped decrement is a false `Arc leaked`)."""
+    prog = ctx.prog
+    n = 0
+    # drop always decrements
+    fk = "<sync::arc::Arc<T> as std::ops::Drop>::drop"
+    root = prog.ident(fk)
+    if root is None:
+        ctx.missing(rule, fk)
+    else:
+        n += 1
+        ea = EventAnalysis(prog, path_matcher({"dec": RTA + "ref_dec"}), stop=lambda i: prog.insts[i].key != fk,
+                           assume=assume_scenario(prog, {"rt::thread::Set::is_active": True})).solve([root])
+        if ea.holds_on_all_paths(root, "dec") and "dec" in ea.may.get(root, ()):
+            ctx.ok(rule, fk, "ref_dec on every path of a live execution", [prog.fns[fk].loc()])
+        else:
+            ctx.bad(rule, fk, "dropping a handle must decrement the modelled count on every path", prog.fns[fk].loc(), detail="dec")
+    return n
+
+
 def A1r(ctx):
     """Front-end wiring of loom Arc: last-handle bookkeeping only after ref_dec()/get_mut() == true, drop always decrements, clone increments first, get_mut/try_unwrap guards, registry, strong-count balance."""
     prog = ctx.prog
@@ -33,19 +54,7 @@ def A1r(ctx):
             ctx.ok("A1r", fk + ":unregister", "only when %s() returned true" % g.split("::")[-1], [site_str(prog, s["fn"], s["bb"])])
         else:
             ctx.bad("A1r", fk, "unregister (this was the last handle) is not guarded by %s() == true" % g, site_str(prog, s["fn"], s["bb"]), detail="unregister-guard")
-    # drop always decrements
-    fk = "<sync::arc::Arc<T> as std::ops::Drop>::drop"
-    root = prog.ident(fk)
-    if root is None:
-        ctx.missing("A1r", fk)
-    else:
-        n += 1
-        ea = EventAnalysis(prog, path_matcher({"dec": RTA + "ref_dec"}), stop=lambda i: prog.insts[i].key != fk,
-                           assume=assume_scenario(prog, {"rt::thread::Set::is_active": True})).solve([root])
-        if ea.holds_on_all_paths(root, "dec") and "dec" in ea.may.get(root, ()):
-            ctx.ok("A1r", fk, "ref_dec on every path of a live execution", [prog.fns[fk].loc()])
-        else:
-            ctx.bad("A1r", fk, "dropping a handle must decrement the modelled count on every path", prog.fns[fk].loc(), detail="dec")
+    n += arc_drop_decrements(ctx)
     # clone: increment before cloning the std Arc
     fk = "<sync::arc::Arc<T> as std::clone::Clone>::clone"
     root = prog.ident(fk)
